@@ -237,6 +237,15 @@ def _do_run(scenario, seed, tier, idx, faults, timeout):
         out["trace"] = trace
         return out
     out["result"] = res
+    if idx % 997 < 3:
+        # determinism canary on every check run: the same trace again, in another child
+        st2, res2 = run_isolated(_exec_trace, (scenario, trace), timeout)
+        if st2 != "ok" or res2["digest"] != res["digest"]:
+            out["status"] = "nondeterministic"
+            out["error"] = f"re-execution gave {st2} digest {res2.get('digest') if st2 == 'ok' else res2} vs {res['digest']}"
+            out["trace"] = trace
+            return out
+        res["counters"] = dict(res.get("counters", {}), determinism_canaries=1)
     if res["violations"]:
         out["trace"] = trace
     elif idx < 3:
